@@ -84,6 +84,7 @@ func init() {
 				ValW:    valAll, MaxDepth: 2, MaxElems: 5, AcqW: [3]int{8, 1, 1},
 				DigRootsPct: 25, // "any hash distribution": colliding digests too (limit stays 255)
 				HipGroupsPct: 25, // ... and genuine first-level collisions of the default digester
+				Keep: 15, // some handed-back containers are kept and used further through their old handles
 			})
 		},
 		Or:   func(*Case) Oracles { return Oracles{CmpEvery: 1, CheckHandles: true} },
